@@ -110,6 +110,10 @@ _BIN = {
     ast.Div: lambda a, b: a / b, ast.Mod: lambda a, b: a % b, ast.LShift: lambda a, b: a << b, ast.RShift: lambda a, b: a >> b, ast.BitAnd: lambda a, b: a & b,
     ast.BitOr: lambda a, b: a | b, ast.BitXor: lambda a, b: a ^ b, ast.Pow: lambda a, b: a ** b if (not isinstance(b, int) or abs(b) < 4096) else (_ for _ in ()).throw(OverflowError()),
 }
+import hashlib as _hl
+import hmac as _hm
+import re as _re
+
 _PURE_METHODS = {
     bytes: {"startswith", "endswith", "hex", "decode", "lstrip", "rstrip", "strip", "find", "index", "count", "join"},
     str: {"startswith", "endswith", "lower", "upper", "strip", "lstrip", "rstrip", "find", "rfind", "index", "encode", "split", "rsplit", "splitlines", "partition", "rpartition", "count",
@@ -120,6 +124,12 @@ _PURE_METHODS = {
     tuple: {"index", "count"},
     dict: {"get", "keys", "values", "items", "pop", "update", "setdefault", "copy"},
     int: {"to_bytes", "bit_length"},
+    # regular expressions are constants of the source; matching them is the standard library's own (pure) semantics of the pattern language
+    _re.Pattern: {"match", "fullmatch", "search", "findall", "sub", "split"},
+    _re.Match: {"group", "groups", "groupdict", "start", "end", "span"},
+    # digests of the standard library: pure functions of the bytes fed in
+    type(_hl.sha256()): {"digest", "hexdigest", "update", "copy"},
+    _hm.HMAC: {"digest", "hexdigest", "update", "copy"},
 }
 
 
@@ -136,7 +146,11 @@ class Evaluator:
         import struct as _st
         self.externals = {"struct": Namespace(pack=_st.pack, unpack=lambda f_, b_: _st.unpack(f_, bytes(b_)), calcsize=_st.calcsize), "pack": _st.pack,
                           "unpack": lambda f_, b_: _st.unpack(f_, bytes(b_)), "BytesIO": lambda b_=b"": FileStandIn(bytes(b_)),
-                          "math": Namespace(ceil=_m.ceil, floor=_m.floor, log=_m.log, log2=_m.log2, sqrt=_m.sqrt), "ceil": _m.ceil, "floor": _m.floor}
+                          "math": Namespace(ceil=_m.ceil, floor=_m.floor, log=_m.log, log2=_m.log2, sqrt=_m.sqrt), "ceil": _m.ceil, "floor": _m.floor,
+                          "hashlib": Namespace(sha256=_hl.sha256, sha1=_hl.sha1, sha512=_hl.sha512, new=_hl.new, pbkdf2_hmac=_hl.pbkdf2_hmac),
+                          "hmac": Namespace(new=_hm.new, compare_digest=_hm.compare_digest, digest=_hm.digest),
+                          "re": Namespace(compile=_re.compile, match=_re.match, fullmatch=_re.fullmatch, search=_re.search, findall=_re.findall, sub=_re.sub, split=_re.split,
+                                          IGNORECASE=_re.IGNORECASE, I=_re.I)}
         self.externals.update(externals or {})
         self.method_hooks = method_hooks or {}  # (class name, method name) -> python callable(args) standing in for the method
         self.steps = 0
@@ -593,7 +607,8 @@ class Evaluator:
             if isinstance(o, Namespace):
                 if not hasattr(o, e.attr):
                     raise Undecided("attribute %s of a module stand-in" % e.attr)
-                return ("pyfunc", getattr(o, e.attr))
+                v_ = getattr(o, e.attr)
+                return ("pyfunc", v_) if callable(v_) else v_
             if isinstance(o, FileStandIn) and e.attr == "read":
                 return ("pymethod", o, "read")
             if isinstance(o, Obj):
